@@ -604,15 +604,16 @@ def c20(scn, run):
                 f"iteration {first_launch_tick.get(double)}, which completed (and committed) before the crash")
     # a child spawned in the crash iteration whose parent's completion was flushed to the database by TaskPool.remove()
     # before the end-of-iteration write of the task_pool table: after the restart it is neither pooled nor respawned
-    spawned_in_crash_tick, tick, after = set(), None, False
+    spawned_in_crash_tick, pending = set(), []
     for e in tr:
         if e["e"] == "tick":
-            tick = e["n"]
-        elif e["e"] == "spawn" and tick in crash_ticks and not after:
-            spawned_in_crash_tick.add(tuple(e["t"]["id"]))
+            pending = []
+        elif e["e"] == "spawn":
+            pending.append(tuple(e["t"]["id"]))
         elif e["e"] == "crash":
-            after = True
-        elif e["e"] == "spawn_none" and after and tuple(e["id"]) in spawned_in_crash_tick:
+            spawned_in_crash_tick.update(pending)
+            pending = []
+        elif e["e"] == "spawn_none" and tuple(e["id"]) in spawned_in_crash_tick:
             sub = {tuple(j[:2]) for x in tr if x["e"] == "submit" for j in x["jobs"]}
             if tuple(e["id"]) not in sub:
                 return (f"{e['id']} was spawned in the main-loop iteration in which the scheduler died; its spawning was committed "
